@@ -253,6 +253,7 @@ Print Assumptions C13_extent_is_bounding_box.
 
 (* ------------------------------------------------------------------ groups: the copy by extent of a group holds exactly the copies
    of the children whose own selection is not empty, in order, and there is no group copy when there is none *)
+(* (list-level lemma, definitional for [group_copy_from_extent]; the statement on the composed operation follows) *)
 Theorem C13_group_copy : forall (A : Type) (copies : list (option A)),
   let kept := flat_map (fun c => match c with Some x => [x] | None => [] end) copies in
   (group_copy_from_extent copies = None <-> forall c, In c copies -> c = None) /\
@@ -260,6 +261,42 @@ Theorem C13_group_copy : forall (A : Type) (copies : list (option A)),
   (forall x, In x kept <-> In (Some x) copies).
 Proof. intros A. exact (@group_copy_spec A). Qed.
 Print Assumptions C13_group_copy.
+
+(* Group.copy_from_extent composed with its children's own copy_from_extent (objects of the C07/C13 model): a copy is
+   returned iff no child's copy raises and some child has a selection, and it holds exactly the copies of those children, in
+   order; None iff every child returns None; when a child's copy raises, the group's raises the same error and the group
+   copy made so far is removed again by the repaired code (cleanup = true) and left behind by the pinned code *)
+Theorem C13_group_copy_from_extent : forall cleanup children e inv,
+  let rs := map (fun o => child_copy_res o e inv) children in
+  (forall l, group_copy_run cleanup rs = GCopy l ->
+     (forall o, In o children -> forall er, copy_from_extent o e inv <> CErr er) /\ l <> [] /\
+     l = flat_map (fun o => match copy_from_extent o e inv with CCopy c => [c] | _ => [] end) children) /\
+  (group_copy_run cleanup rs = GNone ->
+     forall o, In o children -> copy_from_extent o e inv = CNone) /\
+  (forall er stray, group_copy_run cleanup rs = GFail er stray ->
+     stray = negb cleanup /\ exists o, In o children /\ copy_from_extent o e inv = CErr er).
+Proof. exact group_copy_children. Qed.
+Print Assumptions C13_group_copy_from_extent.
+
+(* Drillhole.copy_from_extent, repaired: the hole is copied (as a whole) exactly when its collar is selected *)
+Theorem C13_drillhole_copy_repaired : forall collar nv e inv,
+  drillhole_copy_from_extent true collar nv e inv =
+  match drillhole_mask collar e inv with
+  | Err er => Err er
+  | Ok None => Ok None
+  | Ok (Some _) => if xorb inv (in_box (coords collar) e) then Ok (Some true) else Ok None
+  end.
+Proof. exact drillhole_copy_fixed. Qed.
+Print Assumptions C13_drillhole_copy_repaired.
+
+(* REFUTED for the pinned code: a hole with depth data whose collar lies in the box is not copied (ValueError), and a hole
+   without vertices is copied although its collar is not selected (inverse) *)
+Theorem C13_drillhole_copy_refuted :
+  ~ (forall collar nv e inv, drillhole_copy_from_extent false collar nv e inv = drillhole_copy_from_extent true collar nv e inv).
+Proof.
+  intros H. specialize (H (1, 1, 0)%Z (Some 3) [(0, 2); (0, 2)]%Z false). vm_compute in H. discriminate.
+Qed.
+Print Assumptions C13_drillhole_copy_refuted.
 
 (* ------------------------------------------------------------------ non-vacuity *)
 (* a surface whose first triangle lies in the 2-D box [0,1]x[0,1] (points on the boundary count; z is ignored) and whose second
